@@ -47,6 +47,8 @@ def sockMonObs (hasJunk : Bool) (kv : List (String × String)) : String :=
     let serving :=
       (if hasJunk && !(st && allDelivered) then ["C09.sock_not_serving{who=real}"] else [])
       ++ (if get "serveJ" == "n" then ["C09.sock_not_serving{who=J}"] else [])
+      -- a TestRequest written together with the Logon (one read at the acceptor) is framed and answered like one sent apart
+      ++ (if (kv.lookup "pipeJ").getD "-" == "n" then ["C12.frames_depend_on_segmentation{where=acceptor-handshake}"] else [])
       ++ (if get "stopped" == "y" then [] else ["C09.hang{op=sock-stop}"])
       ++ (if (kv.lookup "hung").getD "0" == "0" then [] else ["C09.hang{op=sock-send}"])
     verdict (link ++ sampled ++ unsettled ++ pair "A" ++ pair "B" ++ panics ++ serving)
